@@ -1821,3 +1821,19 @@ Proof. vm_compute. split; reflexivity. Qed.
 (* consequently the refutation is not vacuous: there is a Python-like parser, and C19 fails for it *)
 Theorem C19_refuted_nonvacuous : exists ps, python_like ps /\ ~ C19_statement ps.
 Proof. exists toy_parse. split; [exact python_like_toy|apply C19_refuted_lemma; exact python_like_toy]. Qed.
+
+(* derived forms of two instances, as stated in props/C19.v *)
+Lemma C19_nonvacuous_lemma :
+  guard_C19 (table_parse w_in_guard_tab) w_in_guard = true
+  /\ exists written, snd (run_c19 (table_parse w_in_guard_tab) w_in_guard) = Some written.
+Proof. split; [exact (proj1 w_in_guard_in_guard)|eexists; exact (proj2 w_in_guard_in_guard)]. Qed.
+
+Lemma C19_witness_api_appends_lemma :
+  C19_domain (table_parse w_api_appends_tab) w_api_appends = true
+  /\ finding_class_C19 (table_parse w_api_appends_tab) w_api_appends = Some K_api_appends
+  /\ exists after, snd (run_c19 (table_parse w_api_appends_tab) w_api_appends) = Some after
+                   /\ startswith (L "OLD = 1") after = true /\ after <> L "OLD = 1" ++ [nl].
+Proof.
+  destruct w_api_appends_fails as [H1 [H2 H3]]. split; [exact H1|split; [exact H2|]].
+  eexists. split; [exact H3|split; [reflexivity|discriminate]].
+Qed.
